@@ -40,6 +40,9 @@ pub fn finish_literal(f: &Finish, exps: &[Exp], discovered: &BTreeSet<String>) -
 
 pub struct Matches;
 impl SubCheck for Matches {
+    fn fuzzable(&self) -> bool {
+        true
+    }
     type Case = MatchCase;
     fn name(&self) -> &'static str {
         "has_discoveries_matches"
